@@ -236,7 +236,8 @@ def check_coarse(j):
         d = abs(wrap180(a - b))
         if d > 0.02:
             out.append(("coarse_longitude", "coarse %s %r vs VSOP87 %r (%.4f deg) at JDE %r" % (name, a, b, d, j), d))
-    d = S.sep_ll(ca._deg, cd._deg, pa._deg, pd._deg)
+    # each coordinate on its own (the right ascension difference is 1 / cos(dec) times the arc) and the arc
+    d = max(S.sep_ll(ca._deg, cd._deg, pa._deg, pd._deg), abs(wrap180(ca._deg - pa._deg)), abs(cd._deg - pd._deg))
     if d > 0.02:
         out.append(("coarse_equatorial", "coarse apparent RA/dec (%r, %r) vs VSOP87 (%r, %r): %.4f deg at JDE %r"
                     % (ca._deg, cd._deg, pa._deg, pd._deg, d, j), d))
@@ -332,6 +333,47 @@ def run_forms(block, ctx):
     ctx.sample(block[0])
 
 
+# -- the Sun crossing 0 / 90 / 180 / 270 degrees: minutes around every equinox and solstice ---------------
+
+SEASON_YEARS = [-990, -1, 1000, 1582, 1800, 1803, 1899, 1962, 1992, 2000, 2024, 2100, 2199, 2990]
+SEASON_MINUTES = [0.0, 0.5, 1.0, 3.0, 8.0, 15.0, 25.0, 60.0, 600.0]
+
+
+def check_season_seam(case):
+    """The instants returned by the library's own get_equinox_solstice are where the apparent longitude
+    passes a multiple of 90 degrees; the geometric, true and coarse longitudes pass it minutes earlier or
+    later.  Quadrant fixes and 0/360 wraps of any of them go wrong only inside those minutes."""
+    y, season, minutes = case["year"], case["season"], case["minutes"]
+    try:
+        t0 = Sun.get_equinox_solstice(y, season).jde()
+    except Exception as ex:
+        return [("exception", "get_equinox_solstice(%r, %r) raised %r" % (y, season, ex), None)]
+    out = []
+    for sg in (1.0, -1.0):
+        if minutes == 0.0 and sg < 0:
+            continue
+        j = t0 + sg * minutes / 1440.0
+        out += check_reflection(j)
+        if 1800 <= y <= 2199:
+            out += check_coarse(j)
+    return out
+
+
+def season_cases():
+    return [{"year": y, "season": sn, "minutes": mi} for y in SEASON_YEARS for sn in ("spring", "summer", "autumn", "winter")
+            for mi in SEASON_MINUTES]
+
+
+def run_season_seam(block, ctx):
+    for case in block:
+        ctx.evals += 2 * 9
+        ctx.nt_count += 1
+        for site, msg, dev in check_season_seam(case):
+            ctx.viol(case, msg, dev=dev, site="seam_" + site)
+        ctx.outcome((case["season"], case["minutes"]))
+    ctx.sample(block[0])
+
+
 def clauses(tier):
     frames = [y2jde(1000 + i * 12.37) for i in range(162)]
     if tier == "thorough":
@@ -347,7 +389,15 @@ def clauses(tier):
     j = y2jde(1800)
     while j <= y2jde(2200):
         coarse.append(j)
-        j += 7.3 if tier == "thorough" else 73.0
+        j += 1.0 if tier == "thorough" else 73.0
+    # quick: every second day in the first and last 15 years of the range, where a secular error peaks
+    if tier != "thorough":
+        for a, b in ((1800, 1815), (2185, 2200)):
+            j = y2jde(a) + 0.37
+            while j < y2jde(b):
+                coarse.append(j)
+                j += 2.0
+        coarse = sorted(set(coarse))
     return [
         Clause("reflection_obliquity_nutation", chunks(wide, 32), run_epochs,
                lambda c: [m for _, m, _ in check_reflection(c["jde"]) + check_obliquity(c["jde"])], floor=100),
@@ -355,6 +405,8 @@ def clauses(tier):
                floor=100),
         Clause("coarse_sun", chunks(coarse, 16), run_coarse, lambda c: [m for _, m, _ in check_coarse(c["jde"])],
                floor=100),
+        Clause("season_seams", chunks(season_cases(), 16), run_season_seam,
+               lambda c: [m for _, m, _ in check_season_seam(c)], floor=300),
         Clause("date_forms", [[{"instant": list(i)} for i in INSTANTS]], run_forms,
                lambda c: [m for _, m, _ in check_forms(c)], floor=10),
     ]
